@@ -21,6 +21,7 @@ s25 == <<7, 10>>     \* 25
 NoPlaces(rows) == [of |-> [r \in rows |-> {}], row |-> << >>, names |-> << >>]
 
 DZero == D(-1000)      \* the zero time.Time{}: a value like any other (earlier than every other instant), not null
+DFar == D(1000)        \* 9999-12-31, the "never" of many applications (beyond what fits into 64 bits of nanoseconds since 1970)
 NoTags == [k |-> Nil, j |-> Nil, q |-> Nil]
 \* (tag values of type bool / datetime live under key q only: how such values compare under a *string* literal is not documented)
 Row(s, n, m, f, b, t, roles, boss, peers, tags) ==
@@ -33,7 +34,7 @@ D1 == [ name |-> "D1",
                   r2 |-> Row(Nil, Nil, Nil, Nil, Nil, Nil, {}, "r1", {}, NoTags),
                   r3 |-> Row(S(sE), N(0), N(0), F2(0), B(FALSE), DZero, {sB}, "r1", {"r3"}, [k |-> Nil, j |-> S(s1), q |-> D(1)]),
                   r4 |-> Row(S(sUAB), N(-1), N(-1), F2(-1), B(TRUE), D(2), {sB, sUA}, "r4", {"r1", "r4"}, [k |-> N(2), j |-> N(0), q |-> B(FALSE)]),
-                  r5 |-> Row(S(s10), N(10), N(10), F2(4), B(FALSE), D(1), {sA}, "r3", {"r2"}, [k |-> F2(3), j |-> S(sA), q |-> D(2)]) ],
+                  r5 |-> Row(S(s10), N(10), N(10), F2(4), B(FALSE), DFar, {sA}, "r3", {"r2"}, [k |-> F2(3), j |-> S(sA), q |-> D(2)]) ],
         \* places: q1 and q3 carry the same s as rows do (a sub-query evaluated against the wrong type would still find a value), q2 has none
         pl |-> [ of |-> [r1 |-> {"q1", "q2"}, r2 |-> {}, r3 |-> {"q2"}, r4 |-> {"q1", "q3"}, r5 |-> {"q3"}],
                  row |-> [q1 |-> [s |-> S(sA)], q2 |-> [s |-> Nil], q3 |-> [s |-> S(sB)]],
@@ -47,7 +48,7 @@ D2 == [ name |-> "D2",
                   r3 |-> Row(S(sA), Nil, N(1), F2(3), Nil, D(0), {sA}, "", {"r5", "r6"}, [k |-> S(sUA), j |-> N(0), q |-> B(FALSE)]),
                   r4 |-> Row(S(sA), N(1), Nil, Nil, B(FALSE), Nil, {}, "r2", {}, [k |-> F2(5000000), j |-> Nil, q |-> Nil]),
                   r5 |-> Row(Nil, N(1), N(0), F2(-2), B(FALSE), D(1), {sAspB}, "r1", {"r5"}, [k |-> N(1), j |-> N(1), q |-> D(0)]),
-                  r6 |-> Row(S(sAspB), N(0), N(0), F2(5000000), Nil, D(1), {sB}, "r6", {"r1", "r2"}, [k |-> S(s1), j |-> F2(1), q |-> D(3)]) ],
+                  r6 |-> Row(S(sAspB), N(0), N(0), F2(5000000), Nil, DFar, {sB}, "r6", {"r1", "r2"}, [k |-> S(s1), j |-> F2(1), q |-> D(3)]) ],
         pl |-> [ of |-> [r1 |-> {}, r2 |-> {"q1"}, r3 |-> {"q1", "q2"}, r4 |-> {}, r5 |-> {"q2"}, r6 |-> {"q1"}],
                  row |-> [q1 |-> [s |-> S(sA)], q2 |-> [s |-> S(sQ)]],
                  names |-> [q1 |-> sBB, q2 |-> sUAB] ] ]
@@ -187,6 +188,9 @@ MixQ == {Q([k |-> w, sym |-> sym, a |-> a]) : w \in {"atom", "anyOf", "allOf"}, 
         \cup {Q([k |-> "count", sym |-> sym, op |-> op, n |-> n]) : sym \in MixSyms, op \in {"eq", "lt"}, n \in {N(1), F2(3), S(sA), B(TRUE), D(1), Nil}}
         \cup {Q([k |-> "isEmpty", sym |-> sym]) : sym \in MixSyms} \cup {Q([k |-> "boolsym", sym |-> sym]) : sym \in MixSyms}
         \cup {[p |-> TRUEF, sort |-> <<[sym |-> sym, asc |-> TRUE]>>, skip |-> NoVal, limit |-> NoVal] : sym \in MixSyms}
+        \* a valid set function first, then a set symbol where a scalar belongs (rejected at parse time, not evaluated without a cursor)
+        \cup {Q([k |-> c, l |-> [k |-> "isEmpty", sym |-> <<"roles">>], r |-> [k |-> "atom", sym |-> sym, a |-> Cmp("eq", S(sA))]]) : c \in {"and", "or"}, sym \in SetSyms}
+        \cup {Q([k |-> "or", l |-> [k |-> "anyOf", sym |-> <<"peers", "s">>, a |-> Cmp("eq", S(sA))], r |-> [k |-> "atom", sym |-> sym, a |-> IsNull(FALSE)]]) : sym \in SetSyms}
         \* sub-queries over symbols that are no entity sets (scalars, string sets, maps, unknown names), also nested
         \cup {Q([k |-> "isEmptyq", sym |-> sym, q |-> Q(p)]) : sym \in MixSyms, p \in {TRUEF, A1}}
         \cup {Q([k |-> "countq", sym |-> sym, q |-> Q(TRUEF), op |-> "gt", n |-> N(0)]) : sym \in MixSyms}
@@ -205,6 +209,7 @@ Next == n = 0 /\ n' = 1 /\ UNCHANGED <<ds, q>>
 
 Emit == n = 1 => IF Mode = "datasets" THEN PrintT(ToJson([dataset |-> ds]))
                  ELSE IF Mode = "mix" THEN PrintT(ToJson([ds |-> ds.name, q |-> q, ids |-> << >>, count |-> 0, syms |-> << >>])) ELSE
-                 LET ans == Answer(ds, RowIds(ds), q) IN
-                 PrintT(ToJson([ds |-> ds.name, q |-> q, ids |-> ans.ids, count |-> ans.count, syms |-> QSyms(q)]))
+                 LET ans == Answer(ds, RowIds(ds), q)
+                     kid == Answer(ds, KidRows(ds), q)        \* the same query asked of the plain child store: the rows that have child data
+                 IN PrintT(ToJson([ds |-> ds.name, q |-> q, ids |-> ans.ids, count |-> ans.count, syms |-> QSyms(q), kidIds |-> kid.ids, kidCount |-> kid.count]))
 =============================================================================
